@@ -148,7 +148,17 @@ theorem accept_notify_before_inactive_hangs_witness (sch : List Tid) :
   simp only [run, List.foldl_append] at h ⊢
   rw [h]; decide
 
-/-! ### the rows take their wake-ups from the source: sanity of the generated sequences -/
+/-! ### the rows take their wait shapes and wake-ups from the source: sanity of the generated tables -/
+
+/-- every API the property names has a row, and no wait site was left unclassified -/
+theorem every_api_has_a_row :
+    ∀ n ∈ ["open_channel", "global_request", "renegotiate_keys", "start_client", "auth_wait_for_response",
+           "send_user_message", "channel_request", "recv_exit_status", "recv", "send", "accept", "ensure_session"],
+      ∃ api ∈ apiTable, api.name = n := by decide
+
+theorem no_unclassified_wait_site :
+    ∀ w ∈ PV.Generated.C13.waitShapes, w.kind ∈ ["poll", "event", "cvLoop", "cvOnce"] := by decide
+
 
 /-- on both paths the transport is marked inactive, and on both `accept` waiters are notified after that -/
 theorem accept_is_notified_after_inactive :
